@@ -284,8 +284,8 @@ def run(rep, facts, tier):
         c17.curve_constants(rep, f, name)
     rep.analysed["construction_sites"] = counts
     if "A" in counts:
-        rep.floor("construction_sites_A", counts["A"], 28)
+        rep.floor("construction_sites_A", counts["A"], 16)
     if "M" in counts:
-        rep.floor("construction_sites_M", counts["M"], 4)
+        rep.floor("construction_sites_M", counts["M"], 3)
     from . import witness
     witness.check(rep, "C06", tier)
